@@ -639,3 +639,30 @@ gen_free_slot (gen_t *g)
 {
     return gen_find (g, 0, 0);
 }
+
+/* a bilinear-filtered, purely scaled source whose samples all lie inside it
+ * (the COVER iterators of fast / ssse3), drawn with an operator that has no
+ * whole-operation fast path so that the iterator (and its allocation) is used */
+void
+gen_cover_bilinear (gen_t *g, int src, int dst)
+{
+    int64_t a[16], f[9], rp[5], c[16];
+    int n = prefix (g, a);
+    int sw = g->s[src].w, sh = g->s[src].h;
+    static const int ops[] = { 5, 7, 12, 11, 9, 2 };
+    if (sw < 4 || sh < 3) return;
+    a[n++] = src; a[n++] = 0;
+    a[n++] = rng_range (R, 20000, 60000); a[n++] = 0; a[n++] = 65536 + rng_range (R, 0, 30000);
+    a[n++] = 0; a[n++] = rng_chance (R, 1, 2) ? 65536 : rng_range (R, 20000, 60000); a[n++] = 65536 + rng_range (R, 0, 30000);
+    a[n++] = 0; a[n++] = 0; a[n++] = 65536;
+    sc_addv (g->sc, MOP_SET_TRANSFORM, n, a);
+    n = prefix (g, f); f[n++] = src; f[n++] = PIXMAN_FILTER_BILINEAR; f[n++] = 1; f[n++] = 1; f[n++] = 0; f[n++] = 0;
+    sc_addv (g->sc, MOP_SET_FILTER, n, f);
+    n = prefix (g, rp); rp[n++] = src; rp[n++] = rng_chance (R, 1, 2) ? 0 : 2;
+    sc_addv (g->sc, MOP_SET_REPEAT, n, rp);
+    n = prefix (g, c);
+    c[n++] = ops[rng_n (R, 6)]; c[n++] = src; c[n++] = -1; c[n++] = dst;
+    c[n++] = 0; c[n++] = 0; c[n++] = 0; c[n++] = 0; c[n++] = 0; c[n++] = 0;
+    c[n++] = rng_range (R, 1, sw - 2); c[n++] = rng_range (R, 1, sh - 2);
+    sc_addv (g->sc, MOP_COMPOSITE, n, c);
+}
